@@ -11,8 +11,17 @@ Accepted shapes (K is the local kind variable, P the `problem_kind` argument)
                              <stmts> ; return K
   resulting_problem_kind():  K = P.clone() ; <stmts> ; return K        |  return P.clone()
                              K = helper(P) ; <stmts> ; return K       |  return helper(P)
-                             where `helper` is a module-level function of engines/compilers/utils.py that has itself
-                             the shape of a resulting_problem_kind with one argument (it is inlined)
+                             where `helper` is a module-level function of engines/compilers/utils.py that either has
+                             itself the shape of a resulting_problem_kind with one argument (it is inlined), or whose
+                             body IS, statement by statement (ast equality up to the parameter's name, docstring and
+                             annotations ignored), the "kind at the latest version" function AT_LATEST_SRC below: then
+                             the Decl gets `atLatest := true`, which Core/KindProg.lean interprets as `kindAtLatest`
+                             (clone when `version >= LATEST_PROBLEM_KIND_VERSION`, else `equalize_versions` against
+                             the empty kind of the latest version and the ProblemKind constructor).  The names that
+                             body uses (`equalize_versions`, `LATEST_PROBLEM_KIND_VERSION`, `ProblemKind`) must be
+                             imported in utils.py from the modules that define them and not be rebound at module
+                             level, and the body of `equalize_versions` itself must be EQUALIZE_SRC (it is modelled by
+                             hand as `Kind.equalize`); any other body is TRANSLATION-BROKEN, never assumed.
   <stmt> ::= K.set_<group>("FEATURE") | K.unset_<group>("FEATURE")
            | if <cond>: <stmts> [elif <cond>: <stmts>]* [else: <stmts>]
            | for x in FEATURES["GROUP"]: (K.set_<group>(x) | K.unset_<group>(x))+     (unrolled with the FEATURES
@@ -52,6 +61,101 @@ def _features():
     if not isinstance(feats, ast.Dict):
         raise TranslationBroken(rel, feats.lineno, "FEATURES is not a dict literal")
     return [(_const_str(k, rel), _str_set(v, rel)) for k, v in zip(feats.keys, feats.values)]
+
+
+PKV = "unified_planning/model/problem_kind_versioning.py"
+
+# the function Core/KindProg.lean models as `kindAtLatest` (engines/compilers/utils.py)
+AT_LATEST_SRC = """
+def f(problem_kind):
+    if problem_kind.version >= LATEST_PROBLEM_KIND_VERSION:
+        return problem_kind.clone()
+    features, _, version = equalize_versions(
+        problem_kind.features, set(), problem_kind.version, LATEST_PROBLEM_KIND_VERSION
+    )
+    return ProblemKind(features, version=version)
+"""
+
+# the function Core/Kind.lean models as `equalize` / `upgradeTo` (model/problem_kind_versioning.py)
+EQUALIZE_SRC = """
+def equalize_versions(features_1, features_2, version_1, version_2):
+    while version_1 < version_2:
+        upgrade_function = upgrade_functions_map[(version_1, version_1 + 1)]
+        features_1 = upgrade_function(features_1)
+        version_1 += 1
+
+    while version_2 < version_1:
+        upgrade_function = upgrade_functions_map[(version_2, version_2 + 1)]
+        features_2 = upgrade_function(features_2)
+        version_2 += 1
+
+    assert version_1 == version_2
+    return features_1, features_2, version_1
+"""
+
+
+def _norm_body(fn, rename=None):
+    """ast dumps of the statements of `fn` without docstring; the first parameter renamed to `rename`"""
+    out = []
+    param = fn.args.args[0].arg if fn.args.args else None
+    for s in fn.body:
+        if isinstance(s, ast.Expr) and isinstance(s.value, ast.Constant) and isinstance(s.value.value, str):
+            continue
+        if rename is not None and param is not None:
+            s = ast.parse(ast.unparse(s)).body[0]      # private copy
+            for n in ast.walk(s):
+                if isinstance(n, ast.Name) and n.id == param:
+                    n.id = rename
+        out.append(ast.dump(s))
+    return out
+
+
+def _same_function(fn, template_src, rename=None):
+    t = ast.parse(template_src).body[0]
+    a, ta = fn.args, t.args
+    plain = not (a.vararg or a.kwarg or a.kwonlyargs or a.posonlyargs or a.defaults or fn.decorator_list)
+    if rename is None and [x.arg for x in a.args] != [x.arg for x in ta.args]:
+        return False
+    return plain and len(a.args) == len(ta.args) and _norm_body(fn, rename) == _norm_body(t, rename)
+
+
+def _bound_to(tree, rel, name, modules):
+    """`name` is imported at module level from one of `modules` and bound nowhere else at module level"""
+    ok = False
+    for n in tree.body:
+        if isinstance(n, ast.ImportFrom):
+            for al in n.names:
+                if (al.asname or al.name) == name:
+                    if n.module in modules and al.name == name and n.level == 0:
+                        ok = True
+                    else:
+                        raise TranslationBroken(rel, n.lineno, f"{name} is imported from {n.module}")
+        elif isinstance(n, (ast.FunctionDef, ast.ClassDef)) and n.name == name:
+            raise TranslationBroken(rel, n.lineno, f"{name} is redefined")
+        elif isinstance(n, (ast.Assign, ast.AnnAssign, ast.AugAssign, ast.Import)):
+            for m in ast.walk(n):
+                if isinstance(m, ast.Name) and isinstance(m.ctx, ast.Store) and m.id == name:
+                    raise TranslationBroken(rel, n.lineno, f"{name} is rebound")
+                if isinstance(m, ast.alias) and (m.asname or m.name) == name:
+                    raise TranslationBroken(rel, n.lineno, f"{name} is rebound")
+    if not ok:
+        raise TranslationBroken(rel, 0, f"{name} is not imported from {' / '.join(modules)}")
+
+
+def _is_at_latest(fn, tree, rel):
+    """is the utils.py function `fn` the kind-at-the-latest-version function (see AT_LATEST_SRC)?  The check of the
+    names it uses is made only when the body matches (a different body is an ordinary helper)."""
+    if not _same_function(fn, AT_LATEST_SRC, rename="problem_kind"):
+        return False
+    _bound_to(tree, rel, "equalize_versions", ("unified_planning.model.problem_kind_versioning",))
+    _bound_to(tree, rel, "LATEST_PROBLEM_KIND_VERSION",
+              ("unified_planning.model.problem_kind_versioning", "unified_planning.model.problem_kind"))
+    _bound_to(tree, rel, "ProblemKind", ("unified_planning.model", "unified_planning.model.problem_kind"))
+    pv, pv_rel = _parse(PKV)
+    eq = translate._find_func(pv, "equalize_versions", pv_rel)
+    if not _same_function(eq, EQUALIZE_SRC):
+        raise TranslationBroken(pv_rel, eq.lineno, "equalize_versions no longer has the body modelled by Kind.equalize")
+    return True
 
 
 class _Cls:
@@ -222,7 +326,8 @@ class _Tr:
         return pre + self.stmts(b[1:-1], K, "\0", rel)
 
     def transformer(self, fn, rel, nargs, what, seen=()):
-        """items of a function of the shape `K = P.clone() | helper(P); <stmts>; return K`"""
+        """(start, items) of a function of the shape `K = P.clone() | helper(P); <stmts>; return K`;
+        start = "clone" | "latest": what the kind variable is initialised with before the items run"""
         args = [a.arg for a in fn.args.args]
         if len(args) != nargs:
             raise TranslationBroken(rel, fn.lineno, f"{what} must take {nargs} argument(s)")
@@ -230,10 +335,10 @@ class _Tr:
         b = _body(fn)
 
         def start(e):
-            """items computed by the initial value of the kind variable, or None"""
+            """(start, items) computed by the initial value of the kind variable, or None"""
             if (isinstance(e, ast.Call) and not e.args and not e.keywords and isinstance(e.func, ast.Attribute)
                     and e.func.attr == "clone" and isinstance(e.func.value, ast.Name) and e.func.value.id == P):
-                return []
+                return "clone", []
             if (isinstance(e, ast.Call) and len(e.args) == 1 and not e.keywords and isinstance(e.func, ast.Name)
                     and isinstance(e.args[0], ast.Name) and e.args[0].id == P):
                 h = e.func.id
@@ -242,6 +347,8 @@ class _Tr:
                 tree, urel = _parse(PKG + "/utils.py")
                 for n in tree.body:
                     if isinstance(n, ast.FunctionDef) and n.name == h:
+                        if _is_at_latest(n, tree, urel):
+                            return "latest", []
                         return self.transformer(n, urel, 1, h, seen + (h,))
                 raise TranslationBroken(rel, e.lineno, f"helper {h} is not a function of {PKG}/utils.py")
             return None
@@ -253,7 +360,8 @@ class _Tr:
         K = b[0].targets[0].id
         if not (isinstance(b[-1], ast.Return) and isinstance(b[-1].value, ast.Name) and b[-1].value.id == K):
             raise TranslationBroken(rel, b[-1].lineno, f"{what} must end with `return <kind variable>`")
-        return start(b[0].value) + self.stmts(b[1:-1], K, P, rel)
+        st, pre = start(b[0].value)
+        return st, pre + self.stmts(b[1:-1], K, P, rel)
 
     def resulting(self, cls):
         owner, fn = _resolve(self.classes, cls, "resulting_problem_kind")
@@ -394,9 +502,10 @@ def gen_kinds():
         if all(_only_raises(fn) for _, fn in res.values()):
             pipes.append(name)
             continue
+        start, resulting = tr.resulting(c)
         decls.append({"name": name, "file": c.rel, "line": res["resulting_problem_kind"][1].lineno,
                       "cks": tr.compilation_kinds(c), "supported": tr.supported(c),
-                      "supports": tr.supports_class(c), "resulting": tr.resulting(c)})
+                      "supports": tr.supports_class(c), "resulting": resulting, "atLatest": start == "latest"})
     byname = {d["name"]: d for d in decls}
     order, missing = _factory_order(classes)
     cks = _compilation_kind_enum()
@@ -416,6 +525,7 @@ def gen_kinds():
         L.append(f"  cks := {_lean_list([_lean_str(k) for k in d['cks']])}")
         L.append(f"  supported := {d['name']}.supportedProg")
         L.append(f"  supports := {d['supports']}.supportedProg")
+        L.append(f"  atLatest := {'true' if d['atLatest'] else 'false'}")
         L.append(f"  resulting :=\n    {_prog(d['resulting'])}")
         names = _occurring(d["resulting"], [])
         L.append(f"  names := {_lean_list([_lean_str(f) for f in names])}")
